@@ -177,6 +177,15 @@ func buildCorpus() {
 				ResponsePayload: &payloads.GetAttributesResponsePayload{UniqueIdentifier: fmt.Sprintf("id-%d", i), Attribute: attrs}}}}
 		corpus = append(corpus, corpusEntry{name: fmt.Sprintf("repeated-attributes/%d", i), value: msg, target: func() any { return &kmip.ResponseMessage{} }})
 	}
+	// one payload type whose tagless interface field holds objects of different concrete types (the tag written for the
+	// field is the object's own)
+	for i, ob := range []kmip.Object{o1, o2, o3, &kmip.Certificate{CertificateType: kmip.CertificateTypeX_509, CertificateValue: []byte("not-a-real-certificate")}} {
+		ot := []kmip.ObjectType{kmip.ObjectTypeSymmetricKey, kmip.ObjectTypeSecretData, kmip.ObjectTypeOpaqueObject, kmip.ObjectTypeCertificate}[i]
+		msg := &kmip.ResponseMessage{Header: kmip.ResponseHeader{ProtocolVersion: kmip.V1_4, TimeStamp: fixedTime(), BatchCount: 1},
+			BatchItem: []kmip.ResponseBatchItem{{Operation: kmip.OperationGet, ResultStatus: kmip.ResultStatusSuccess,
+				ResponsePayload: &payloads.GetResponsePayload{ObjectType: ot, UniqueIdentifier: fmt.Sprintf("obj-%d", i), Object: ob}}}}
+		corpus = append(corpus, corpusEntry{name: fmt.Sprintf("get-response/%d", i), value: msg, target: func() any { return &kmip.ResponseMessage{} }})
+	}
 	// negative big integers, as generic values and inside a typed structure (an encoder must not touch its input)
 	for i, sh := range []uint{3, 70, 200} {
 		nb := new(big.Int).Lsh(big.NewInt(int64(-12345-i)), sh)
@@ -515,9 +524,9 @@ func c20SweepFloor(tier string) []*C20Sc {
 		}
 		return -1
 	}
-	pairs := [][2]string{{"escaped-text/0", "escaped-text/1"}, {"escaped-text/2", "escaped-text/0"}}
+	pairs := [][2]string{{"escaped-text/0", "escaped-text/1"}, {"escaped-text/2", "escaped-text/0"}, {"get-response/1", "get-response/2"}}
 	if tier == "thorough" {
-		pairs = append(pairs, [2]string{"escaped-text/1", "escaped-text/2"}, [2]string{"bare-cryptoparams/0", "bare-cryptoparams/1"}, [2]string{"value/0", "value/1"})
+		pairs = append(pairs, [2]string{"escaped-text/1", "escaped-text/2"}, [2]string{"bare-cryptoparams/0", "bare-cryptoparams/1"}, [2]string{"value/0", "value/1"}, [2]string{"get-response/0", "get-response/3"}, [2]string{"get-response/2", "get-response/0"})
 	}
 	var out []*C20Sc
 	for _, pr := range pairs {
